@@ -101,8 +101,10 @@ def showWidth : Width → String
 
 def sortStrings (l : List String) : List String := (l.toArray.qsort (· < ·)).toList
 
+def sortByName {α} (l : List (String × α)) : List (String × α) := (l.toArray.qsort (fun a b => a.1 < b.1)).toList
+
 def showValues (vals : AMap WireValue) : String :=
-  ",".intercalate (sortStrings (vals.map fun p => s!"{p.1}={p.2.bits}/{showWidth p.2.width}"))
+  ",".intercalate ((sortByName vals).map fun p => s!"{p.1}={p.2.bits}/{showWidth p.2.width}")
 
 def showMem (m : Mem) : String := ",".intercalate (m.map fun p => s!"{p.1}:{p.2}")
 
